@@ -373,6 +373,17 @@ def alias_resolved_on_receipt(ctx, prog):
     from .c06 import packet_switch
     sw0 = packet_switch(body)
     same_iter = [bb for bb in resolves if parks[0] in reachable(body, (bb,), avoid_blocks=(sw0[0],))]
+    # ... and what is resolved is the alias the publisher sent: `properties.topic_alias.take()` (taken, so that the
+    # release does not resolve it a second time)
+    def from_props(bb):
+        t = body.blocks[bb]["t"]
+        for x in flatten_src(provenance(body, t["args"][2], through_calls=[r"Option::<T>::and_then$", r"Option::<T>::as_mut$"])):
+            if x.kind == "call" and re.search(r"Option::<T>::(take|and_then)$", x.path):
+                return True
+            if getattr(x, "fields", None) and x.fields[-1] == "topic_alias":
+                return True
+        return False
+    same_iter = [bb for bb in same_iter if from_props(bb)]
     if same_iter:
         ctx.ok(rule, body.id, "a QoS 2 publish's topic alias is resolved before the publish is parked for its release", site=body.loc(body.blocks[same_iter[0]]["t"].get("sp")))
     else:
